@@ -43,7 +43,7 @@ CHECKS = {
             "60 boundary numbers + 300 (quick) / 20000 (thorough) random doubles, 60 strings over Latin/Bangla/marks/decomposable code points, each in 4-19 print forms", "DESIGN.md 4.3, 6 (C15)"),
  "C16": sem("FamProducers", "All producers of a value must behave as the single specification value does, hence pairwise identically.",
             "90 one-hole contexts x 12 values x 7-14 producers (8400 programs); producers of one value must also agree on every soft (coerce-or-reject) choice", "DESIGN.md 6 (C16)"),
- "C17": sem("FamMath", "abs/sqrt/round exactly; sin/cos (4 ulp), tan (16 ulp), pow (64 ulp) relative to fdlibm on the moderate domain, exact where every correct implementation agrees; clock() against the harness clock.",
+ "C17": sem("FamMath", "abs/sqrt/round exactly; sin/cos (4 ulp), tan (32 ulp), pow (64 ulp) relative to fdlibm on the moderate domain, exact where every correct implementation agrees; clock() against the harness clock.",
             "17 built-ins x 0..3 (quick) / 4 (thorough) arguments x 8 kinds; 30 boundary values + 200 / 20000 random doubles per unary function; 17x17 pow grid; 89 min/max lists", "DESIGN.md 4.3, 6 (C17)"),
  "C01": dict(
    technique="TLA+ specs BornoSyntax (ladder relation Canon, Yield, MinParen/FullParen/Strip) and BornoGrammar (predictive recogniser) checked against each other by TLC on every bounded tree / token sequence; trees and accepted sequences replayed into the real parser and compared node by node",
